@@ -366,8 +366,8 @@ func targeted() []Spec {
 		// written; the pairs stay reachable, can be toggled, extended and moved to a new contract
 		{ID: -16, Ops: []Op{{K: "genesis", Pairs: []GPair{{Text: "@0l", Denoms: []string{"acoin", "bcoin"}, Enabled: true, Owner: 2}, {Text: "@1n", Denoms: []string{"ccoin"}, Enabled: true, Owner: 1}},
 			Metas: []MD{{Base: "acoin", Name: "acoin", Symbol: "CN", Display: "coin", Desc: "@desc0", Units: []Unit{unit("acoin", 0), unit("coin", 18)}}}},
-			{K: "toggle", A: "acoin"}, {K: "toggle", A: "@0"}, {K: "convcoin", A: "bcoin"}, sup("dcoin"), {K: "addcoin", A: "@1u", MD: simpleMD("dcoin", "dcoin")},
-			coin(""), {K: "update", A: "@0u", B: "@2"}, {K: "converc20", A: "@2", B: "bcoin"}}},
+			{K: "toggle", A: "acoin"}, {K: "toggle", A: "@0"}, sup("dcoin"), {K: "addcoin", A: "@1u", MD: simpleMD("dcoin", "dcoin")},
+			coin(""), {K: "update", A: "@0u", B: "@2"}, {K: "convcoin", A: "bcoin"}, {K: "converc20", A: "@2", B: "bcoin"}, {K: "convcoin", A: "ccoin"}}},
 		// EqualMetadata's pointer comparison: after the clean-up the metadata of dcoin stays, so an identical
 		// second registration (RegisterCoin and AddCoin) is refused by verifyMetadata
 		{ID: -15, Ops: []Op{sup("dcoin"), {K: "regcoin", MD: simpleMD("dcoin", "dcoin")}, {K: "destroy", A: "@0"}, {K: "convcoin", A: "dcoin"},
